@@ -57,6 +57,28 @@ func VerifC15_blind_factor() {
 	want, ok := c15Reference(pk, blind, ctx)
 	vAssume(ok)
 	vAssert(vBytesEq(got, want), "blinded-key-is-pk-times-reduced-hash-of-blind-0-context")
+	// the same for three neighbouring blinds: whatever the formula depends on in the hash value
+	// (its top bit, say) then takes both values natively as well
+	for i := 1; i <= 3; i++ {
+		b2 := append([]byte{}, blind...)
+		b2[0] ^= byte(i)
+		if !vSymbolic() {
+			// natively: walk to a neighbour whose hash has the wanted top bit (the solver covers
+			// every blind anyway; a replay should not depend on the luck of four hash values)
+			for t := 0; t < 256; t++ {
+				b2[1] = blind[1] ^ byte(t)
+				h := sha512.Sum512(append(append(append([]byte{}, b2...), 0x00), ctx...))
+				if (h[31]&0x80 != 0) == (i%2 == 1) {
+					break
+				}
+			}
+		}
+		g2, err := BlindPublicKeyWithContext(pk, b2, ctx)
+		vAssert(err == nil, "blinds")
+		w2, ok := c15Reference(pk, b2, ctx)
+		vAssume(ok)
+		vAssert(vBytesEq(g2, w2), "blinded-key-is-pk-times-reduced-hash-of-blind-0-context")
+	}
 	// unblinding with the same blind and context gives the key back
 	back, err := UnblindPublicKeyWithContext(got, blind, ctx)
 	vAssert(err == nil, "unblinds")
